@@ -172,13 +172,20 @@ def c10_insitu_cases(tier, rng):
         dev = zoo.gen_device(rng, n_terminals=nt, n_holes=int(rng.choice([0, 1])) if nt == 0 else 0, probes=0,
                              size="tiny" if "screening" in kind else "small", smooth=0)
         scr = "screening" in kind
-        o = base_options(rng, adaptive=bool(rng.choice([True, False])) and kind != "slow_ramp", steps=60 if scr else 150, screening=scr)
+        if scr:
+            dev["layer"]["lam"], dev["layer"]["d"] = 2.0, 0.1  # moderate screening: Polyak's iteration converges
+        if kind == "slow_ramp":
+            dev["layer"]["gamma"], dev["layer"]["u"] = 1.0, 5.79  # dt = 1e-3 well inside the stability bound
+        o = base_options(rng, adaptive=bool(rng.choice([True, False])) and kind != "slow_ramp", steps=40 if scr else 150, screening=scr)
+        if scr:
+            o["max_iterations_per_step"] = 3000
         if nt:
             o["terminal_psi"] = [0.0, "none"][int(rng.integers(2))]
         if kind == "slow_ramp":
             # very slow ramp with small fixed dt: per-step change of A is below the solver's
             # allclose threshold, total change over the run is not
             o.update(adaptive=False, dt_init=1e-3, solve_time=0.4)
+            o.pop("auto_dt", None)
             sc = _scales(dev, o)
             # relative change per step 1e-3/150 < 1e-5 (below allclose), 0.27 % over the run
             A = {"kind": "ramp", "B": 0.4 * sc.Bc2 / sc.fu, "tmin": 0.0, "tmax": 150.0, "initial": 1.0, "final": 2.0}
